@@ -191,6 +191,40 @@ FindImpl(J, x) ==
         ELSE IF x.after # NONE THEN LastN(acc, lim)       \* `oldest`
         ELSE FirstN(acc, lim)
 
+(* PROCESS LIFE.  Everything a query LOOKS AT while it walks is something the process may remember
+   (a cache of directory listings, of missing directories, of loaded days ...).  FindObs is the set
+   of observations of one query on the files J: <<"y", year, 0>> / <<"m", year, month>> /
+   <<"d", day, 0>> = that directory was looked at and was MISSING, <<"l", day, 0>> = the files of
+   that day were loaded.  A later append e OUTDATES the observations in Outdated(e): makedirs
+   creates the year, the month and the day directory of e, and the files of its day change.  The
+   property knows no process memory: whatever was observed and has been outdated since, a query
+   answers from what has been appended (FindOK) - so the replays need queries BETWEEN the appends
+   of one process life, in particular a query after an observation has been outdated (Chronicle_Gen,
+   LifeSpec), and process restarts (nothing remembered, nothing lost). *)
+RECURSIVE WalkObs(_, _, _, _, _, _, _, _, _)
+WalkObs(D, J, lo, hi, lim, ok, c, acc, o) ==
+    IF ~( /\ (lim = NONE \/ Len(acc) < lim)
+          /\ c >= 0
+          /\ IF Pinned THEN c > lo ELSE DayOf(c) >= DayOf(lo) )
+    THEN o
+    ELSE LET d == DayOf(c) IN
+         IF YearDir(D, d)
+         THEN IF MonthDir(D, d)
+              THEN IF DayDir(D, d)
+                   THEN WalkObs(D, J, lo, hi, lim, ok, c - NT,
+                                acc \o Load(J, lo, IF Pinned THEN c ELSE hi, d, ok), o \cup {<<"l", d, 0>>})
+                   ELSE WalkObs(D, J, lo, hi, lim, ok, c - NT, acc, o \cup {<<"d", d, 0>>})
+              ELSE WalkObs(D, J, lo, hi, lim, ok, EndPrevMonth(c), acc, o \cup {<<"m", Year(d), Month(d)>>})
+         ELSE WalkObs(D, J, lo, hi, lim, ok, EndPrevYear(c), acc, o \cup {<<"y", Year(d), 0>>})
+
+FindObs(J, x) ==
+    LET lim == IF x.after # NONE /\ x.before # NONE THEN NONE ELSE x.limit
+        hi  == IF x.before = NONE THEN x.now ELSE x.before
+    IN  WalkObs(Dirs(J), J, x.after, hi, lim, x.ok, hi, <<>>, {})
+
+Outdated(e) == LET d == DayOf(EntAt[e]) IN
+               {<<"y", Year(d), 0>>, <<"m", Year(d), Month(d)>>, <<"d", d, 0>>, <<"l", d, 0>>}
+
 (* find converts both bounds to UTC before it walks (the day directories are named after the UTC
    date of completion), so the transcription works on instants and is independent of the zone the
    bounds are written in; the zone is an input dimension of the replays on the real code.
